@@ -3,6 +3,8 @@
 package gossip
 
 import (
+	"strconv"
+
 	v "github.com/andydunstall/piko/zzverif"
 )
 
@@ -157,7 +159,11 @@ func Harness_C17_step() {
 		m, ok := n.Entries[compactKey]
 		v.Assert("C17/compact-marker", ok)
 		v.Assert("C17/compact-marker-shape", v.And(m.Internal, v.And(!m.Deleted, m.Version == n.Version)))
-		v.Assert("C17/compact-marker-value", m.Value == v.Dec(preVersion))
+		// the marker's value reads (as receivers read it: base 10) as the
+		// last discarded version
+		cv, perr := strconv.ParseUint(m.Value, 10, 64)
+		v.Assert("C17/compact-marker-value", perr == nil)
+		v.Assert("C17/compact-marker-value", cv == preVersion)
 		v.Assert("C17/compact-consecutive", n.Version == preVersion+uint64(live)+1)
 		// relative order of live keys preserved
 		for i, ki := range keys {
